@@ -197,9 +197,25 @@ func VrfC10Expiry() {
 	}
 	other := api.PinCid(vrfCid(1)) // never expires
 	other.ReplicationFactorMin, other.ReplicationFactorMax = -1, -1
-	cons.pins = append(cons.pins, vrfCopyPin(pin), other)
+	// optionally an expired entry that cannot be unpinned directly (a shard of a
+	// sharded add made with an expiry): the sweep must go on past it
+	stuck := vrf_choice("expired_shard_entry", 3) // 0 none, 1 listed first, 2 listed last
+	shard := api.PinCid(vrfCid(2))
+	shard.Type, shard.MaxDepth = api.ShardType, 1
+	shard.ReplicationFactorMin, shard.ReplicationFactorMax = -1, -1
+	shard.ExpireAt = time.Unix(0, now-3600*vrfSecond)
+	switch stuck {
+	case 1:
+		cons.pins = append(cons.pins, shard, vrfCopyPin(pin), other)
+	case 2:
+		cons.pins = append(cons.pins, vrfCopyPin(pin), other, shard)
+	default:
+		cons.pins = append(cons.pins, vrfCopyPin(pin), other)
+	}
 	err := c.StateSync(c.ctx)
-	vrf_assert(err == nil, "C10.expiry.no-error")
+	if stuck == 0 {
+		vrf_assert(err == nil, "C10.expiry.no-error")
+	}
 	unpins := 0
 	for _, e := range cons.log {
 		vrf_assert(e.unpin && e.pin.Cid.Equals(pin.Cid), "C10.expiry.only-the-expired-pin")
